@@ -301,7 +301,7 @@ pub fn exec_tier(case: &TierCase) -> CaseReport {
 pub fn check_c08(tier: Tier, seed: u64) -> i32 {
     let mut check = Check::new("C08", "exploration", tier, seed);
     check.rule = "(code) every built-in Code type (14 numeric types at MIN/MAX/0/1/random, floats by bit pattern incl. NaN payloads, bool, String empty/ASCII/multi-byte/4-byte scalars, Vec<u8> and Bytes of length 0..20000 concentrated at page boundaries with incompressible / run / mixed content): decode(encode(x)) == x bitwise, no trailing bytes, and encoding into every too-small buffer returns the size-limit error. (ser) EntrySerializer / EntryDeserializer for five key/value type pairs under none/zstd/lz4: KvInfo lengths == bytes written (independent counting writer), round trip, every cut-off of the destination (all for <= 200 bytes, 48 edge cut-offs + generated ones beyond) is a size-limit error and never Ok, Buffer::push header fields == actual lengths and the independent format reader agrees. (mut) valid entries and blob indexes damaged by 1-4 byte edits / truncation: accepted only if the checksummed bytes are intact and the decoded key/value are the originals. (tier) on hybsim, values at the per-entry limit -5000..+600 bytes under each codec: an accepted entry loads bit-exactly and is found intact by the independent reader, a rejected one is absent as a whole. (serde) the code part again in the check-serde binary built with foyer-common's serde feature (bincode path). Non-trivial = value >= 1 page, or empty, or a cut inside the compressor's frame header/footer, or (tier) both an accepted and a rejected entry in one case.".into();
-    check.assumptions = vec!["coverage-guided byte-level fuzzing of the same oracles is available as cargo-fuzz targets under /verif/fuzz (run by the thorough tier when the nightly toolchain is present)".into()];
+    check.assumptions = vec!["the quick tier replays the committed seed inputs of the cargo-fuzz targets in-process; the coverage-guided campaigns themselves (cargo +nightly fuzz, ASan, debug assertions) run in the thorough tier".into()];
     // (d) serde/bincode build of the Code impls: runs beside the in-process parts
     let serde_child = spawn_serde(&check);
     let n = tier.pick(60_000, 2_000_000);
@@ -313,6 +313,16 @@ pub fn check_c08(tier: Tier, seed: u64) -> i32 {
     let n = tier.pick(1500, 60_000);
     check.run_random("tier", n, tier_case, exec_tier);
     collect_serde(&check, serde_child);
+    // byte-level targets: committed seed / regression inputs through the same oracles (quick and thorough), then
+    // coverage-guided libFuzzer campaigns (thorough)
+    for t in ["fmt_entry", "fmt_entry_struct", "code_roundtrip", "ser_roundtrip"] {
+        crate::fuzzglue::replay_seed_corpus(&check, t);
+    }
+    if tier == Tier::Thorough {
+        crate::fuzzglue::campaign(&check, "code_roundtrip", 20_000_000, 4096);
+        crate::fuzzglue::campaign(&check, "ser_roundtrip", 4_000_000, 512);
+        crate::fuzzglue::campaign(&check, "fmt_entry", 20_000_000, 16384);
+    }
     check.finish()
 }
 
